@@ -565,7 +565,7 @@ theorem bridge_loop (hS : Setup P c aL aS nL n) (hA : Accepts P c aL aS nL n) (h
           simp at q1; omega
         · rw [hnil] at hq; simp at hq; omega
       have hsent : (st1.sent == 0) = false := by rw [h1.rel.sent]; simp [hn0]
-      simp only [hwnil, if_true, hsent, Bool.false_eq_true, if_false, Option.some.injEq] at hT
+      simp only [hwnil, if_true, hsent, Bool.false_and, Bool.false_eq_true, if_false, Option.some.injEq] at hT
       subst hT
       refine Match.done (fun F hF => ?_)
       obtain ⟨F', rfl⟩ : ∃ k, F = k + 1 := ⟨F - 1, by omega⟩
